@@ -2,6 +2,7 @@ package main
 
 import (
 	"fmt"
+	"reflect"
 	"sort"
 	"strings"
 
@@ -44,6 +45,11 @@ func init() {
 			ls := []string{}
 			for _, l := range ci.LineVec {
 				ls = append(ls, fmt.Sprintf("%d.%d=%s", l.Line, l.Col, hs(l.Str)))
+			}
+			// fix C13-long-comment-doc: the text a long-bracket comment keeps (field CommentInfo.LongStr; read by
+			// reflection so that this harness also builds against a tree without the field)
+			if f := reflect.ValueOf(*ci).FieldByName("LongStr"); f.IsValid() && !ci.ShortFlag {
+				ls = append(ls, "long="+hs(f.String()))
 			}
 			out = append(out, fmt.Sprintf("%d:%s:%s:[%s]", k, b2s(ci.HeadFlag), b2s(ci.ShortFlag), strings.Join(ls, ",")))
 		}
